@@ -3,7 +3,8 @@
    for witnesses).  The model (Model/Pool.v) is an LTS whose `step` accepts every interleaving of
    connect / wake-up / cancel / create outcome / release / close at await granularity; `run c init tr`
    is the state after the event list `tr`; all theorems quantify over ALL configurations and traces. *)
-From AV Require Import Lib.Base Generated.PoolGen Model.Pool Proofs.PoolLimit.
+From AV Require Import Lib.Base Generated.PoolGen Model.Pool Proofs.PoolLimit Proofs.PoolCoh Proofs.PoolOwner
+  Proofs.PoolConn Proofs.PoolWake Proofs.PoolClose.
 Open Scope N_scope.
 
 (* ---- limits --------------------------------------------------------------------------------- *)
@@ -57,3 +58,145 @@ Proof.
   - vm_compute. repeat split; left; reflexivity.
 Qed.
 Print Assumptions C07_limit_partial_example.
+
+(* ---- nothing leaks -------------------------------------------------------------------------- *)
+
+(* Full: in every reachable open state, once no request is being established or holds a connection
+   (all finished, failed, cancelled, or merely queued), nothing remains counted as in use, in
+   total or per host.  Covers every interleaving of failures, cancellations (also of a woken
+   waiter, also during creation) and lost races. *)
+Theorem C07_no_leak : forall c tr s,
+  run c init tr = Some s -> closed s = false ->
+  (forall t, not_in_use (get_pc (pcs s) t)) ->
+  acquired s = [] /\ hostacq s = [].
+Proof. exact no_leak. Qed.
+Print Assumptions C07_no_leak.
+
+(* Stronger form: every counted slot is owned by a request that is being established (placeholder)
+   or holds exactly that connection. *)
+Theorem C07_counted_has_owner : forall c tr s sl,
+  run c init tr = Some s -> closed s = false -> In sl (acquired s) ->
+  match sl with
+  | SPh t => exists k, get_pc (pcs s) t = PCreating k
+  | SConn cn => exists t k, get_pc (pcs s) t = PHolding k cn
+  end.
+Proof. exact counted_has_owner. Qed.
+Print Assumptions C07_counted_has_owner.
+
+Example C07_no_leak_example :
+  let c := {| limit := 1; lph := 0; force_close := false |} in
+  let tr := [EStart 0 0; EStart 1 0; EStart 2 0; ECreateOk 0; ERelease 0 true [0]; ECancel 1;
+             EResume 1 [0]; EResume 2 []; ECreateFail 2 []] in
+  exists s, run c init tr = Some s /\ closed s = false /\
+            get_pc (pcs s) 0 = PDone /\ get_pc (pcs s) 1 = PCancelled /\ get_pc (pcs s) 2 = PFailed /\
+            acquired s = [].
+Proof. eexists. vm_compute. repeat split; reflexivity. Qed.
+Print Assumptions C07_no_leak_example.
+
+(* ---- no waiter is forgotten ----------------------------------------------------------------- *)
+
+(* Full statement: in a reachable open state with no wake-up in flight, a queued live waiter finds no
+   usable capacity.  REFUTED when limit_per_host is set: _release_waiter computes availability
+   ignoring wake-ups already in flight and may hand two wake-ups to the same host; the second
+   woken waiter silently re-queues and the other host's waiter sleeps with a free slot.
+   Witness (limit_per_host=1): holders on hosts 0 and 1; waiters 2,3 on host 0 and 4 on host 1;
+   both holders release before waiter 2 runs and the shuffle puts host 0 first both times.
+   Replayed on the implementation: corpus/C07/per_host_wasted_wakeup.json
+   (known finding C07-per-host-wasted-wakeup). *)
+Theorem C07_no_lost_wakeup_refuted : exists c tr s t k,
+  run c init tr = Some s /\ closed s = false /\ woken s = [] /\
+  In (t, k, false) (waiters s) /\ (0 < avail c s k)%Z.
+Proof.
+  exists {| limit := 0; lph := 1; force_close := false |}.
+  exists [EStart 0 0; EStart 1 1; ECreateOk 0; ECreateOk 1; EStart 2 0; EStart 3 0; EStart 4 1;
+          ERelease 0 true [0; 1]; ERelease 1 true [0; 1]; EResume 2 []; EResume 3 []].
+  eexists. exists 4, 1. vm_compute. repeat split; try reflexivity. right. left. reflexivity.
+Qed.
+Print Assumptions C07_no_lost_wakeup_refuted.
+
+(* What holds, for ALL traces, when only the total limit is configured (limit_per_host = 0):
+   a queued live waiter at a point with no wake-up in flight means the limit is really reached.
+   Missing for the full statement: the per-host case (refuted above); the combined case fails by the
+   same witness. *)
+Theorem C07_no_lost_wakeup_partial : forall c tr s t k,
+  lph c = 0%Z -> (0 < limit c)%Z ->
+  run c init tr = Some s -> closed s = false -> woken s = [] ->
+  In (t, k, false) (waiters s) ->
+  (avail c s k <= 0)%Z /\ (limit c <= Z.of_nat (length (acquired s)))%Z.
+Proof. exact no_lost_wakeup_total. Qed.
+Print Assumptions C07_no_lost_wakeup_partial.
+
+(* The counting invariant behind it (holds at every instant, not only at quiescence): while a live
+   waiter is queued, slots in use plus wake-ups in flight cover the limit, i.e. every free slot has
+   already been promised to a woken waiter that has not run yet. *)
+Theorem C07_wakeups_cover_limit_partial : forall c tr s t k,
+  lph c = 0%Z -> (0 < limit c)%Z ->
+  run c init tr = Some s -> closed s = false -> In (t, k, false) (waiters s) ->
+  (limit c <= Z.of_nat (length (acquired s)) + Z.of_nat (length (woken s)))%Z.
+Proof. exact wakeups_cover_limit. Qed.
+Print Assumptions C07_wakeups_cover_limit_partial.
+
+(* non-vacuity: a state satisfying every hypothesis of the partial theorem, reached through a wake-up
+   that is cancelled in flight and handed on, and a lost race with a re-queue at the front *)
+Example C07_no_lost_wakeup_partial_example :
+  let c := {| limit := 1; lph := 0; force_close := false |} in
+  let tr := [EStart 0 0; ECreateOk 0; EStart 1 0; EStart 2 1; EStart 3 0; ERelease 0 true [1; 0];
+             ECancel 2; EStart 4 1; EResume 2 [0; 1]; EResume 1 []] in
+  exists s, run c init tr = Some s /\ closed s = false /\ woken s = [] /\
+            waiters s = [(1, 0, false); (3, 0, false)] /\ length (acquired s) = 1%nat.
+Proof. eexists. vm_compute. repeat split; reflexivity. Qed.
+Print Assumptions C07_no_lost_wakeup_partial_example.
+
+(* ---- close ------------------------------------------------------------------------------------ *)
+
+(* Full: after the connector is closed, every connection it created is closed — pooled ones,
+   ones in use at the time, and ones whose establishment completes after the close. *)
+Theorem C07_close_closes_all : forall c tr s cn,
+  run c init tr = Some s -> closed s = true -> cn < nconn s -> In cn (closedc s).
+Proof. exact close_closes_all. Qed.
+Print Assumptions C07_close_closes_all.
+
+(* and before that no connection is ever lost track of: pooled, counted in use, or closed *)
+Theorem C07_conn_conservation : forall c tr s cn,
+  run c init tr = Some s -> closed s = false -> cn < nconn s ->
+  In cn (map fst (idle s)) \/ In (SConn cn) (acquired s) \/ In cn (closedc s).
+Proof. exact conn_conservation. Qed.
+Print Assumptions C07_conn_conservation.
+
+(* "close fails every waiter", full statement: no live waiter is ever queued on a closed connector
+   (in traces that start no request after the close).  REFUTED: a waiter woken just before the close
+   resumes afterwards, re-checks the capacity against books the close did not reset
+   (_acquired_per_host is not cleared) and queues itself again; nothing will ever wake or fail it.
+   Replayed on the implementation: corpus/C07/requeue_after_close.json
+   (known finding C07-requeue-after-close). *)
+Theorem C07_close_no_waiter_refuted : exists c tr s t k,
+  run c init (tr ++ [EClose; EResume t []]) = Some s /\ closed s = true /\
+  In (t, k, false) (waiters s).
+Proof.
+  exists {| limit := 0; lph := 1; force_close := false |}.
+  exists [EStart 0 0; EStart 1 0; ECreateFail 0 [0]; EStart 2 0].
+  eexists. exists 1, 0. vm_compute. repeat split; try reflexivity. left. reflexivity.
+Qed.
+Print Assumptions C07_close_no_waiter_refuted.
+
+(* What holds for ALL traces: the close step itself fails every request queued at that moment (its
+   future is cancelled, the queue and the in-use set are emptied, and when the request runs again it
+   terminates as cancelled).  Missing for the full statement: requests that were already woken and
+   queue again after the close (refuted above). *)
+Theorem C07_close_fails_waiters_partial : forall c tr s s' t k,
+  run c init tr = Some s -> closed s = false -> step c s EClose = Some s' ->
+  In (t, k, false) (waiters s) ->
+  closed s' = true /\ waiters s' = [] /\ acquired s' = [] /\
+  get_pc (pcs s') t = PWaiting k FCancelled /\
+  forall order, exists s'', step c s' (EResume t order) = Some s'' /\ get_pc (pcs s'') t = PCancelled.
+Proof. exact close_fails_waiters. Qed.
+Print Assumptions C07_close_fails_waiters_partial.
+
+Example C07_close_example :
+  let c := {| limit := 1; lph := 0; force_close := false |} in
+  let tr := [EStart 0 0; ECreateOk 0; ERelease 0 false []; EStart 1 1; EStart 2 0; EStart 3 1; EClose;
+             ECreateOk 1; EResume 3 []] in
+  exists s, run c init tr = Some s /\ closed s = true /\ nconn s = 2 /\ closedc s = [1; 0] /\
+            get_pc (pcs s) 3 = PCancelled /\ get_pc (pcs s) 1 = PFailed.
+Proof. eexists. vm_compute. repeat split; reflexivity. Qed.
+Print Assumptions C07_close_example.
